@@ -286,6 +286,6 @@ func main() {
 			"LevelDB applies a batch atomically and durably in order (torn batches / fsync are not modelled)",
 			"trie premise wf_blk: older-version nodes a new root reaches were reachable from the parent's root (read sets of the real full walk are used as data)",
 			"vote tally outcome of a round (justified / committed) is data computed by the real engine (C04's model)",
-			"log db (separate SQLite database) and its re-synchronisation at start are outside this check",
+			"log db: SQLite transaction atomicity/durability assumed; the restart here runs without syncLogDB (package main; tied to its model by the C15 harness)",
 		})
 }
